@@ -664,7 +664,16 @@ func c01Programs() []c01Prog {
 		{"[.a[] == 1] | any", c01Pipe(c01Collect(c01Bin(ai, one, c01Cmp("=="))), c01Quant(false))}, {"[.a[] == 1] | all", c01Pipe(c01Collect(c01Bin(ai, one, c01Cmp("=="))), c01Quant(true))}, {".e | any", c01Pipe(c01Key("e"), c01Quant(false))}, {".e | all", c01Pipe(c01Key("e"), c01Quant(true))},
 		{".a | join(\"-\")", c01Pipe(a, c01Join)}, {".a | .[1:]", c01Pipe(a, c01Slice(1))}, {".m | to_entries", c01Pipe(m, c01ToEntries)}, {".a | to_entries", c01Pipe(a, c01ToEntries)}, {"..", c01Recurse}, {".a | ..", c01Pipe(a, c01Recurse)},
 		{".b as $x | .a[] + $x", c01Var(b, func(x *c01V) c01F { return c01Bin(ai, c01Lit(x), c01Add) })}, {".a[] as $x | [$x, .b]", c01Var(ai, func(x *c01V) c01F { return c01Collect(c01Union(c01Lit(x), b)) })},
-		{".a[] as $i ireduce (0; . + $i)", c01Sum}, {".b // 5", c01Alt(b, c01Lit(c01Int(5)))}, {".missing // 5", c01Alt(c01Key("missing"), c01Lit(c01Int(5)))}, {"(.a[] == 1) // 7", c01Alt(c01Bin(ai, one, c01Cmp("==")), c01Lit(c01Int(7)))},
+		{".a[] as $i ireduce (0; . + $i)", c01Sum},
+		{".b as $x | (.m.k as $x | $x) + $x", c01Var(b, func(x *c01V) c01F {
+			return c01Bin(c01Var(c01Pipe(m, c01Key("k")), func(y *c01V) c01F { return c01Lit(y) }), c01Lit(x), c01Add)
+		})},
+		{".b as $x | [(.m.k as $y | $y), $x]", c01Var(b, func(x *c01V) c01F {
+			return c01Collect(c01Union(c01Var(c01Pipe(m, c01Key("k")), func(y *c01V) c01F { return c01Lit(y) }), c01Lit(x)))
+		})},
+		{".b as $x | ((.a[] as $x | $x), $x)", c01Var(b, func(x *c01V) c01F {
+			return c01Union(c01Var(ai, func(y *c01V) c01F { return c01Lit(y) }), c01Lit(x))
+		})}, {".b // 5", c01Alt(b, c01Lit(c01Int(5)))}, {".missing // 5", c01Alt(c01Key("missing"), c01Lit(c01Int(5)))}, {"(.a[] == 1) // 7", c01Alt(c01Bin(ai, one, c01Cmp("==")), c01Lit(c01Int(7)))},
 		{"(.a[] == 1) and (.b == 1)", c01BinSC(c01Bin(ai, one, c01Cmp("==")), c01Bin(b, one, c01Cmp("==")), c01Logic("and"), c01Short("and"))}, {"(.b == 1) or (.a[] == 1)", c01BinSC(c01Bin(b, one, c01Cmp("==")), c01Bin(ai, one, c01Cmp("==")), c01Logic("or"), c01Short("or"))},
 		{".b == 1 | not", c01Pipe(c01Bin(b, one, c01Cmp("==")), c01Not)}, {".a + [.b]", c01Bin(a, c01Collect(b), c01Add)}, {".a + .a", c01Bin(a, a, c01Add)}, {".m + {\"z\": .b}", c01Bin(m, c01Object("z", b), c01Add)}, {".m + {\"k\": .b}", c01Bin(m, c01Object("k", b), c01Add)},
 		{"\"x\" + .s", c01Bin(c01Lit(c01Str("x")), s, c01Add)}, {".m + .b", c01Bin(m, b, c01Add)}, {".a[] - .m", c01Bin(ai, m, c01Arith("-"))}, {".a.k", c01Pipe(a, c01Key("k"))},
@@ -695,11 +704,18 @@ func VerifC01Core() {
 	md := verifStrN("mk", 1, "03")
 	mv, _ := parseInt64ForHarness(md)
 	doc := vDoc(vMap(vStr("a"), aSeq, vStr("b"), vInt(bd), vStr("s"), vStr("k"), vStr("m"), vMap(vStr("k"), vInt(md)), vStr("e"), vSeq()))
+	// evaluation mode: sequence mode (default) or eval-all, where readDocuments marks the document roots
+	// EvaluateTogether and binary operators take the all-together path of crossFunction
+	evalAll := verifChoice("evalAll", 2) == 1
+	doc.EvaluateTogether = evalAll
 	ref := c01Map([]string{"a", "b", "s", "m", "e"}, []*c01V{c01Seq(xv...), {k: 2, i: bv, s: bd}, c01Str("k"), c01Map([]string{"k"}, []*c01V{{k: 2, i: mv, s: md}}), c01Seq()})
 	c01Empty, c01Open = false, false
 	want, wantOK := progs[p].ref([]*c01V{ref})
 	res, err := vEval(vParse(progs[p].text), doc)
 	label := "program=" + progs[p].text
+	if evalAll {
+		label += " mode=eval-all"
+	}
 	if c01Open {
 		verifCover("C01/open-region")
 		return
